@@ -335,7 +335,7 @@ Section Edge.
     srcs st = [s] -> cfg s = c0 -> w_bal m = 0 -> MSG_ID_SPECIAL < w_mid m -> w_mid m < f_min f ->
     on_msg Repaired st f 0 m = (with_srcs [with_conn true s] st, f, [], false).
   Proof.
-    intros Hs Hc Hb Hsp Hlt. unfold on_msg. rewrite Hs. cbn [nth_error]. rewrite Hc. cbn [sc_eph c0].
+    intros Hs Hc Hb Hsp Hlt. unfold on_msg. rewrite Hs. cbn [nth_error]. rewrite Hc. cbn [sc_eph sc_mode c0 heard_topic].
     replace (0 =? 0) with true by reflexivity. cbn [negb]. rewrite Hb. replace (0 =? 0) with true by reflexivity.
     replace (w_mid m <=? MSG_ID_SPECIAL) with false by (symmetry; apply Z.leb_gt; exact Hsp).
     unfold process_msg. replace (w_mid m <? f_min f) with true by (symmetry; apply Z.ltb_lt; exact Hlt).
@@ -353,7 +353,7 @@ Section Edge.
     on_msg Repaired st f 0 m =
       (with_srcs [if got_all s2 then with_reg false s2 else s2] (with_srcs [s2] st), setmin f (w_mid m), [], false).
   Proof.
-    intros Hs Hc Hbal Hb Hsp Hge Hr Hreg sm s2. unfold on_msg. rewrite Hs. cbn [nth_error]. rewrite Hc. cbn [sc_eph c0].
+    intros Hs Hc Hbal Hb Hsp Hge Hr Hreg sm s2. unfold on_msg. rewrite Hs. cbn [nth_error]. rewrite Hc. cbn [sc_eph sc_mode c0 heard_topic].
     replace (0 =? 0) with true by reflexivity. cbn [negb]. rewrite Hb. replace (0 =? 0) with true by reflexivity.
     replace (w_mid m <=? MSG_ID_SPECIAL) with false by (symmetry; apply Z.leb_gt; exact Hsp).
     unfold process_msg. replace (w_mid m <? f_min f) with false by (symmetry; apply Z.ltb_ge; exact Hge).
@@ -379,7 +379,7 @@ Section Edge.
     on_msg Repaired st f 0 m =
       (with_srcs [if got_all s2 then with_reg false s2 else s2] (with_srcs [s2] st), setmin f (w_mid m), [], false).
   Proof.
-    intros Hs Hc Hbal Hb Hsp Hge Hr Hreg Ht sm s2. unfold on_msg. rewrite Hs. cbn [nth_error]. rewrite Hc. cbn [sc_eph c0].
+    intros Hs Hc Hbal Hb Hsp Hge Hr Hreg Ht sm s2. unfold on_msg. rewrite Hs. cbn [nth_error]. rewrite Hc. cbn [sc_eph sc_mode c0 heard_topic].
     replace (0 =? 0) with true by reflexivity. cbn [negb]. rewrite Hb. replace (0 =? 0) with true by reflexivity.
     replace (w_mid m <=? MSG_ID_SPECIAL) with false by (symmetry; apply Z.leb_gt; exact Hsp).
     unfold process_msg. replace (w_mid m <? f_min f) with false by (symmetry; apply Z.ltb_ge; lia).
@@ -618,7 +618,7 @@ Section Edge.
   Lemma ready_flags_single st s : srcs st = [s] -> balance st = false -> cfg s = c0 -> ready_flags st = (got s =? 2).
   Proof.
     intros Hs Hb Hc. unfold ready_flags. rewrite Hs, Hb. cbn [flags_from]. destruct (got s =? 2); [reflexivity|].
-    rewrite Hc. cbn [sc_eph c0]. destruct (got s =? 0); reflexivity.
+    rewrite Hc. cbn [sc_eph sc_mode c0 heard_topic]. destruct (got s =? 0); reflexivity.
   Qed.
 
   Definition mk_abs n hbp q qu r := {| a_n := n; a_hbp := hbp; a_q := q; a_queue := qu; a_rest := r |}.
